@@ -9,14 +9,7 @@ import ILV.Drv.ProvShared
 namespace ILV.Drv.C22
 open ILV ILV.Prov ILV.Drv.Prov
 
-mutual
-def hasTrunc : Tree → Bool
-  | .node (.trunc _) _ _ _ => true
-  | .node _ _ _ kids => hasTruncList kids
-def hasTruncList : List Tree → Bool
-  | [] => false
-  | k :: ks => hasTrunc k || hasTruncList ks
-end
+def hasTrunc (t : Tree) : Bool := t.hasTrunc
 
 def isFallbackRoot (t : Tree) : Bool := match t.kind with | .trunc _ => true | _ => false
 
